@@ -499,18 +499,28 @@ impl<F: AsRef<Path> + AsRef<FileId>> FileSubGroup<F> {
     ) -> Vec<FileSubGroup<F>> {
         let mut prefix_groups = Vec::from_iter(roots.iter().map(|_| FileSubGroup::empty()));
         let mut id_groups = IndexMap::new(); // important: keep order of insertion
+
+        // The root of a file is looked up, not searched for: the cost of a file must not
+        // grow with the number of roots. Of equal roots, the first one gets the files.
+        let mut root_index: HashMap<&Path, usize> = HashMap::with_capacity(roots.len());
+        for (idx, root) in roots.iter().enumerate().rev() {
+            root_index.insert(root, idx);
+        }
         for f in files {
             let path: &Path = f.as_ref();
             let id: FileId = *f.as_ref();
             // If the roots are nested, the file belongs to the innermost one,
-            // so the result doesn't depend on the order of the roots.
-            let root_idx = roots
-                .iter()
-                .enumerate()
-                .rev()
-                .filter(|(_, r)| r.is_prefix_of(path))
-                .max_by_key(|(_, r)| r.component_count())
-                .map(|(idx, _)| idx);
+            // so the result doesn't depend on the order of the roots:
+            // the first of the path and its ancestors that is a root.
+            let mut root_idx = None;
+            let mut ancestor = Some(path).filter(|_| !root_index.is_empty());
+            while let Some(a) = ancestor {
+                root_idx = root_index.get(a).copied();
+                ancestor = match root_idx {
+                    Some(_) => None,
+                    None => a.parent().map(|p| p.as_ref()),
+                };
+            }
             match root_idx {
                 Some(idx) => prefix_groups[idx].files.push(f),
                 None if group_by_id => id_groups.entry(id).or_insert(FileSubGroup::empty()).push(f),
